@@ -182,16 +182,28 @@ func runGoNode(rc *sk.RunCtx, focus string) {
 	if rc.Failed() {
 		return
 	}
+	synctest.Wait() // whatever the constructors started has settled before the first step
 	defer mw.stopAll()
 	g := &goNodeWorld{mw: mw, rc: rc}
 	hmOr, idxOr := newHostmapOracle(rc), newIndexOracle(rc)
+	settling := false
 	checkInv := func(ev string) bool {
 		for _, n := range mw.nodes {
 			if focus == "C28" && !hmOr.check(n, ev) {
 				return false
 			}
-			if focus == "C29" && !idxOr.check(n, ev) {
-				return false
+			if focus == "C29" {
+				// The index oracle's release rules compare with the state after the PREVIOUS check. Between two checks
+				// of the prelude / an interleaved round many things happen (an entry is shadowed by a newer tunnel and
+				// then removed together with that tunnel), so only the state rules are applied there: a fresh oracle per
+				// check has no previous state. The settle phase checks after every event and uses the full rules.
+				o := idxOr
+				if !settling {
+					o = newIndexOracle(rc)
+				}
+				if !o.check(n, ev) {
+					return false
+				}
 			}
 		}
 		return !rc.Failed()
@@ -251,10 +263,18 @@ func runGoNode(rc *sk.RunCtx, focus string) {
 		len(mw.nodes[1].f.handshakeManager.vpnIps), len(mw.nodes[1].f.hostMap.Indexes), bucket(int64(len(g.held))))
 	pendingAtStart := len(mw.nodes[0].f.handshakeManager.vpnIps)+len(mw.nodes[1].f.handshakeManager.vpnIps) > 0
 
-	// phase 1: the roles of each node, interleaved at lock points
+	// phase 1: the roles of each node, interleaved at lock points; several rounds, each delivering what the previous
+	// one produced, so that multi-hop exchanges (handshake + reply, relay request / forward / response) happen under
+	// interleaving hop by hop
+	nRounds := 1 + tp.Choose(3)
+	if relayWorld {
+		nRounds = 2 + tp.Choose(5)
+	}
+	totalSteps, roles := 0, 0
+	var s *gosched
+	for round := 0; round < nRounds; round++ {
 	g.advance([]time.Duration{0, 100, 200, 400, 1100, 2100}[tp.Choose(6)] * time.Millisecond) // some timers become due
-	s := newGosched(rc)
-	roles := 0
+	s = newGosched(rc)
 	for i, n := range mw.nodes {
 		i, n := i, n
 		if tp.Chance(7, 8) {
@@ -335,26 +355,37 @@ func runGoNode(rc *sk.RunCtx, focus string) {
 				lo := tp.Chance(1, 2)
 				s.spawn(fmt.Sprintf("n%d.ctl-close", i), func() { ctl.CloseTunnel(peer, lo) })
 			case 1:
+				// single-host snapshots (ListHostmapHosts/Indexes walk Go maps: their order of lock acquisitions would
+				// make the schedule unreplayable as soon as a node holds two tunnels)
 				s.spawn(fmt.Sprintf("n%d.ctl-list", i), func() {
-					ctl.ListHostmapHosts(false)
-					ctl.ListHostmapIndexes(true)
+					ctl.GetHostInfoByVpnAddr(peer, false)
+					ctl.GetHostInfoByVpnAddr(peer, true)
+					ctl.PrintTunnel(peer)
 				})
 			case 2:
 				s.spawn(fmt.Sprintf("n%d.ctl-create", i), func() { ctl.CreateTunnel(peer) })
 			case 3:
 				mayDrop = true
-				s.spawn(fmt.Sprintf("n%d.ctl-closeall", i), func() { ctl.CloseAllTunnels(false) })
+				// every tunnel, closed one by one in a canonical order (Control.CloseAllTunnels itself walks a Go map,
+				// whose order would make the schedule unreplayable)
+				s.spawn(fmt.Sprintf("n%d.ctl-closeall", i), func() {
+					for _, h := range sortedHostInfos(n.f.hostMap) {
+						ctl.CloseTunnel(h.vpnAddrs[0], false)
+					}
+				})
 			}
 		}
 	}
 	ok := s.run()
-	rc.Logf("interleaving (%d steps): %v", s.steps, head2(s.trace, 60))
+	rc.Logf("interleaving round %d (%d steps): %v", round, s.steps, head2(s.trace, 60))
+	totalSteps += s.steps
 	if !ok {
 		return
 	}
 	g.grab()
-	if !checkInv("interleaved phase") {
+	if !checkInv(fmt.Sprintf("interleaved round %d", round)) {
 		return
+	}
 	}
 
 	// phase 2: release everything onto the fault-free network and let the pair settle
@@ -366,6 +397,7 @@ func runGoNode(rc *sk.RunCtx, focus string) {
 	}
 	g.held = nil
 	horizon := w.now + 15*time.Second
+	settling = true
 	mw.onWire = func(from *simNode, d *simDatagram) { g.noteWire(d) }
 	if focus != "C32" {
 		mw.afterEvent = func(name string) { checkInv(name) }
@@ -416,16 +448,20 @@ func runGoNode(rc *sk.RunCtx, focus string) {
 		}
 	}
 	rc.Count("probe.roles", int64(roles))
-	rc.Count("probe.scheduler_steps", int64(s.steps))
+	rc.Count("probe.scheduler_steps", int64(totalSteps))
+	rc.Count("probe.interleaved_rounds", int64(nRounds))
+	if relayWorld {
+		rc.Count("probe.relay_triple_runs", 1)
+	}
 	if pendingAtStart {
 		rc.Count("probe.interleaved_phase_started_with_pending_handshake", 1)
 	}
 	if mayDrop {
 		rc.Count("probe.runs_where_loss_is_legitimate", 1)
 	}
-	if roles >= 3 && s.steps > roles+4 {
+	if roles >= 3 && totalSteps > roles+4 {
 		rc.Nontrivial()
 	}
-	rc.Sample(map[string]any{"roles": roles, "scheduler_steps": s.steps, "pending_at_start": pendingAtStart, "loss_legitimate": mayDrop,
-		"markers": len(mw.sent), "interleaving_head": head2(s.trace, 30)})
+	rc.Sample(map[string]any{"roles": roles, "rounds": nRounds, "relay_triple": relayWorld, "scheduler_steps": totalSteps, "pending_at_start": pendingAtStart,
+		"loss_legitimate": mayDrop, "markers": len(mw.sent), "last_round_interleaving_head": head2(s.trace, 30)})
 }
